@@ -38,6 +38,14 @@ type val struct {
 	cb     *cbRef
 	origin string
 	recv   *val // bound receiver for interface method values
+	iter   *iterRef
+}
+
+// iterRef marks an iterator returned by a function under contract: its elements satisfy the result-callback requires.
+type iterRef struct {
+	con  *Contract
+	spec *CbSpec
+	args []val
 }
 
 func scalar(t term) val { return val{t: t} }
